@@ -577,8 +577,8 @@ theorem c01_trailer_overflow_closes (cfg : ConnCfg) (count : Nat) (r : PReq) (t 
   rw [h1Feed_cons]
   have hstep : ckStep (ckCfgOf cfg) { mode := .trailer acc off false, out := out, ka := ka, after := after } b
       = { mode := .done, out := out, ka := false, after := after } := by
-    have hl : (acc ++ [b]).length ≥ cfg.maxField := by simp; omega
-    simp [ckStep, hb, hnoend, ckCfgOf, hl]
+    simp [ckStep, hb, hnoend, ckCfgOf]
+    omega
   simp [h1Step, hstep, respond, keepAliveAfter, h1Feed_closed]
 
 /-- `close` is final: no event of any kind follows it -/
